@@ -19,7 +19,9 @@ def run(rep, kf, tier, seed):
     from pyvc import engine_b
     import contracts.param_conflicts as pc
     import contracts.registration as creg
-    engine_b.discharge(rep, kf, [pc.conflicts_contract(), pc.iter_all_parameters_contract()] + creg.all_contracts(), "C09", tier, seed)
+    import contracts.add_property as cap
+    engine_b.discharge(rep, kf, [pc.conflicts_contract(), pc.iter_all_parameters_contract()] + creg.all_contracts()
+                       + cap.all_contracts(), "C09", tier, seed)
     from props.common import run_bounded, discharge_parallel
     import contracts.enum_values as cev
     discharge_parallel(rep, kf, [cev.values_contract()], "C09", tier, seed)
